@@ -213,6 +213,8 @@ class IOManager:
             io_group, pathlib.Path(path), cls=cls.io_class, **io_args)
         try:
             spec._on_load_value()
+            if self.get_spec_from_value(io_group, spec.value) is not None:
+                raise ValueError("the value already has an IOSpec")
             self.add_spec(spec.io, spec)
         except:
             if not spec.io.specs:
